@@ -141,7 +141,7 @@ fn run(input: RunInput) -> ScenFuture {
             let burn_ms: u64 = if busy_run && !busy_call && r_busy.gen_bool(0.25) { r_busy.gen_range(5..200) } else { 0 };
             let h_us = if burn_ms > 0 { h_us.min(600_000) } else { h_us };
             let (hdr, class) = header_value(&mut r, d_in, d_out, h_us / 1000 + burn_ms);
-            let api = r.gen_range(0..4);
+            let api = r.gen_range(0..5);
             let mut req = Request::new(Bytes::from(format!("c{i}"))).with_header("x-nonce", i.to_string());
             req = if busy_call { req.with_header("x-busy-ms", (h_us / 1000).to_string()) } else { req.with_header("x-delay-us", h_us.to_string()) };
             if busy_call {
@@ -160,6 +160,15 @@ fn run(input: RunInput) -> ScenFuture {
                 0 => client.net.rpc(server.peer_id, req).await,
                 1 => client.net.peer(server.peer_id).unwrap().rpc(req).await,
                 2 => tower::ServiceExt::oneshot(client.net.peer(server.peer_id).unwrap(), req).await,
+                4 => {
+                    // the typed client every generated client method goes through (identity codec)
+                    let mut typed = anemo::rpc::client::Rpc::new(client.net.peer(server.peer_id).unwrap());
+                    match typed.unary(req, anemo::rpc::codec::IdentityCodec::new("bytes")).await {
+                        Ok(resp) => Ok(resp),
+                        Err(st) if st.status() == StatusCode::RequestTimeout => Ok(Response::new(Bytes::new()).with_status(StatusCode::RequestTimeout)),
+                        Err(st) => Err(anyhow::anyhow!("{st:?}")),
+                    }
+                }
                 _ => {
                     // polled once in this task (a select! probe, futures::poll!), then handed to
                     // another task that drives it to the end
@@ -519,6 +528,72 @@ fn run(input: RunInput) -> ScenFuture {
             relay_nodes.push(s3);
             relay_nodes.push(relay);
             relay_nodes.push(c2);
+        }
+        // ---- a request that takes long to arrive: a body pushed through a tiny flow-control window
+        //      needs several times the serving side's deadline to get there. The deadline is the
+        //      handler's: it starts when the request is handed to the service, and a handler
+        //      needing a fraction of it is answered normally ----
+        if !w.violated() && w.flag("request_slow_to_arrive", 0.15) {
+            let d4 = w.param("slow_arrival_inbound_default_ms", 100, 600) as u64;
+            let window = w.param("slow_arrival_stream_window", 512, 2_048) as u64;
+            let rtt_ms = (2 * lat_max_us / 1000).max(1);
+            let body_len = (window * (3 * d4 / rtt_ms).max(4)).min(400_000) as usize;
+            let mut cfg4 = base_config(60_000, Some(5_000));
+            cfg4.inbound_request_timeout_ms = Some(d4);
+            cfg4.quic.as_mut().unwrap().stream_receive_window = Some(window);
+            let s4 = w.start_node(w.spec_exact(30, cfg4), Svc::echo(&w)).unwrap();
+            let c4 = w.start_node(w.spec_exact(31, base_config(60_000, Some(5_000))), Svc::echo(&w)).unwrap();
+            if c4.net.connect_with_peer_id(s4.addr, s4.peer_id).await.is_err() {
+                w.harness_error("slow-arrival setup failed");
+            }
+            sleep_ms(100).await;
+            let body = Bytes::from(vec![0x5Au8; body_len]);
+            let t0 = w.now_ns();
+            let res = tokio::time::timeout(Duration::from_secs(300), c4.net.rpc(s4.peer_id, Request::new(body.clone()).with_header("x-delay-ms", (d4 / 10).to_string()))).await;
+            let took_ms = (w.now_ns() - t0) / MS;
+            match res {
+                Ok(Ok(resp)) if resp.status() == StatusCode::Success && resp.body() == &body => {}
+                other => w.violate("server-cut-off-early", "slow-arrival", format!("a request of {body_len} bytes through a stream window of {window} bytes (round trip {rtt_ms} ms) took {took_ms} ms; the handler needs {} ms, the serving side's deadline is {d4} ms: expected Success, got {:?}", d4 / 10, other.map(|r| r.map(|x| (x.status(), x.body().len())).map_err(|e| format!("{e:#}"))))),
+            }
+            if took_ms > d4 {
+                w.probe("request-arrival-longer-than-the-serving-deadline");
+            }
+            relay_nodes.push(s4);
+            relay_nodes.push(c4);
+        }
+        // ---- the connection is replaced while a call is in flight (the caller dials the peer again):
+        //      the call ends with the connection it was made on, or at its deadline - not later ----
+        if !w.violated() && w.flag("connection_replaced_mid_call", 0.15) {
+            let d5 = w.param("replaced_outbound_default_ms", 400, 1_500) as u64;
+            let mut cfg5 = base_config(60_000, Some(5_000));
+            cfg5.outbound_request_timeout_ms = Some(d5);
+            let s5 = w.start_node(w.spec_exact(32, base_config(60_000, Some(5_000))), Svc::echo(&w)).unwrap();
+            let c5 = std::sync::Arc::new(w.start_node(w.spec_exact(33, cfg5), Svc::echo(&w)).unwrap());
+            if c5.net.connect_with_peer_id(s5.addr, s5.peer_id).await.is_err() {
+                w.harness_error("replacement setup failed");
+            }
+            sleep_ms(100).await;
+            let t0 = w.now_ns();
+            let (c5b, sid, w5) = (c5.clone(), s5.peer_id, w.clone());
+            let call = tokio::spawn(async move {
+                let r = c5b.net.rpc(sid, Request::new(Bytes::from_static(b"slow")).with_header("x-delay-ms", (3 * d5).to_string())).await;
+                (w5.now_ns(), r.map(|x| x.status()).map_err(|e| format!("{e:#}")))
+            });
+            sleep_ms(d5 / 2).await;
+            let _ = c5.net.connect_with_peer_id(s5.addr, s5.peer_id).await;
+            match tokio::time::timeout(Duration::from_secs(30), call).await {
+                Ok(Ok((t_end, outcome))) => {
+                    if t_end > t0 + d5 * MS + margin_base + 5 * MS || outcome.is_ok() {
+                        w.violate("caller-deadline-not-enforced", "connection-replaced-mid-call", format!("outbound default {d5} ms, handler {} ms, the caller dialed the peer again {} ms into the call: the call ended {} ms after it began with {outcome:?}", 3 * d5, d5 / 2, (t_end - t0) / MS));
+                    }
+                }
+                other => w.violate("unexpected-rpc-outcome", "connection-replaced-mid-call", format!("{other:?}")),
+            }
+            w.probe("connection-replaced-mid-call");
+            relay_nodes.push(s5);
+            if let Ok(c5) = std::sync::Arc::try_unwrap(c5) {
+                relay_nodes.push(c5);
+            }
         }
         w.probe_n("cut-offs", cut);
         w.probe_n("skipped-near-boundary", skipped);
